@@ -2,3 +2,4 @@
 import GoLevel.Gen.Consts
 import GoLevel.Model.Bytes
 import GoLevel.Model.Key
+import GoLevel.Model.Filter
